@@ -42,6 +42,8 @@ def specs_for(ctx):
         dict(D=2, target="sphere", box="sym", noise="det", cons="ball", x0="absent", options=dict(max_fun_evals=50), seed=sd + 10),
         dict(D=3, target="outside", box="log", noise="det", cons="ball", x0="absent", options=dict(max_fun_evals=60), seed=sd + 11),
         dict(D=2, target="outside", box="logbig", noise="det", options=dict(max_fun_evals=70), seed=sd + 6),
+        dict(D=2, target="sphere", box="mixlog", noise="det", options=dict(max_fun_evals=60), seed=sd + 12),
+        dict(D=3, target="outside", box="mixlog", noise="det", x0="absent", options=dict(max_fun_evals=70), seed=sd + 13),
         dict(D=2, target="outside", box="dec", noise="det", options=dict(max_fun_evals=60), seed=sd + 7),
         dict(D=2, target="outside", box="declog", noise="det", options=dict(max_fun_evals=60), seed=sd + 8),
         dict(D=2, target="sphere", box="logbig", noise="specified", sigma=0.3, cons=None, options=dict(max_fun_evals=60, noise_final_samples=2), seed=sd + 9),
